@@ -508,16 +508,46 @@ Verdict k_math(Choices& c, CaseLog& log)
     log.d("top", top);
     log.d("bottom", bot);
     {
+        // "integer division, rounding up": the quotient always fits the type,
+        // so the exact (128-bit) value is the reference for ALL operands,
+        // including those next to the type's maximum
+        int edge = int(c.pick({6, 1, 1, 1}));
+        log.mix(edge);
+        unsigned a32 = unsigned(top), b32 = unsigned(bot) ? unsigned(bot) : 1;
+        if (edge == 1)
+        {
+            top = UINT64_MAX - (unsigned long)c.int_in(0, 8);
+            a32 = UINT32_MAX - unsigned(c.int_in(0, 8));
+            log.label("ceil_div:top-at-max");
+        }
+        else if (edge == 2)
+        {
+            bot = UINT64_MAX - (unsigned long)c.int_in(0, 8);
+            b32 = UINT32_MAX - unsigned(c.int_in(0, 8));
+            log.label("ceil_div:bottom-at-max");
+        }
+        else if (edge == 3)
+        {
+            // top + bottom just wraps
+            top = UINT64_MAX - bot + (unsigned long)c.int_in(0, 3);
+            a32 = UINT32_MAX - b32 + unsigned(c.int_in(0, 3));
+            log.label("ceil_div:sum-wraps");
+        }
         unsigned long got = celeritas::ceil_div(top, bot);
         unsigned __int128 t = top;
         unsigned long ref = (unsigned long)((t + bot - 1) / bot);
-        if (top <= UINT64_MAX - bot && got != ref)
-            return log.fail("ceil_div differs from exact");
-        unsigned a32 = unsigned(top), b32 = unsigned(bot) ? unsigned(bot) : 1;
-        if (a32 <= UINT32_MAX - b32
-            && celeritas::ceil_div(a32, b32)
-                   != unsigned((uint64_t(a32) + b32 - 1) / b32))
-            return log.fail("ceil_div<unsigned> differs from exact");
+        if (got != ref)
+            return log.fail("ceil_div<unsigned long>(" + std::to_string(top)
+                            + ", " + std::to_string(bot) + ") = "
+                            + std::to_string(got) + ", exact "
+                            + std::to_string(ref));
+        unsigned got32 = celeritas::ceil_div(a32, b32);
+        unsigned ref32 = unsigned((uint64_t(a32) + b32 - 1) / b32);
+        if (got32 != ref32)
+            return log.fail("ceil_div<unsigned>(" + std::to_string(a32) + ", "
+                            + std::to_string(b32) + ") = "
+                            + std::to_string(got32) + ", exact "
+                            + std::to_string(ref32));
     }
     long iv = long(c.int_in(-40, 40));
     log.mix(iv);
